@@ -134,6 +134,11 @@ PLANS["C11"] = {
          "quick": dict(Family="tbl", MaxHist=6, MaxEc=0, MaxRowsE=2, MaxCbs=1),
          "thorough": dict(Family="tbl", MaxHist=7, MaxEc=0, MaxRowsE=2, MaxCbs=1),
          "properties": ["ErrsAppendOnly"]},
+        # two tables: rows with errors join either, both, or one of them twice
+        {"module": "MCErrors",
+         "quick": dict(Family="two", MaxHist=8, MaxEc=0, MaxRowsE=1, MaxCbs=1),
+         "thorough": dict(Family="two", MaxHist=9, MaxEc=0, MaxRowsE=2, MaxCbs=1),
+         "properties": ["ErrsAppendOnly"]},
     ],
     "random": [{"gen": gens.gen_errors}],
     "min_scenarios": {"quick": 5000, "thorough": 50000},
@@ -196,7 +201,9 @@ PLANS["C13"] = {
     "own": ["props", "res.cblog", "res.regerr"],
     "mc": [_cbmc("empty", 2, 2), _cbmc("hdr", 1, 2), _cbmc("one", 2, 2), _cbmc("built", 1, 2), _cbmc("full", 1, 2),
            # cells copied by value carry their callbacks: registrations on the original and on each copy
-           _cbmc("copy", 3, 4, '{"render"}', '{"itself"}', 1)],
+           _cbmc("copy", 3, 4, '{"render"}', '{"itself"}', 1),
+           # a row in two tables: each table's pass runs that table's own callbacks on the shared row's cells
+           _cbmc("shared", 1, 2, '{"pre", "render", "post"}', '{"cell", "itself"}', 2)],
     "random": [{"gen": gens.gen_callbacks}],
     "min_scenarios": {"quick": 3000, "thorough": 50000},
     "assumptions": [
@@ -383,7 +390,7 @@ def _wmc(content, creators, kinds, wraps, renders, targets=ALLFMT, decors="{}"):
 PLANS["C10"] = {
     "require_ops": ['wrap', 'render', 'newtable'],
     "facets": "same",
-    "own": ["res.same", "out.text", "out.csv", "out.html", "out.json", "out.md", "out.errtext", "res.dec", "res.autostyle"],
+    "own": ["res.same", "out.text", "out.csv", "out.html", "out.json", "out.md", "out.errtext", "res.dec", "res.autostyle", "res.regerr"],
     "mc": [
         {"module": "MCWrap", "properties": ["RenderPure"],
          "quick": _wmc("c1", ALLCRE, '{"text", "csv", "md"}', 2, 1),
